@@ -82,6 +82,7 @@ structure Mon where
   lastHi : Int := 0         -- Presence is sampled at joins, ticks and API starts - the instants at which the group
                             -- looks - and the creation of the group (time 0) counts as the first sample.
   stopped : Bool := false   -- stop / kick answered "done" since the current attempt started
+  consumers : Nat := 0      -- consumers the MONITOR counted from the join / leave events (any protocol)
   since : Nat := 0          -- attempts the MONITOR counted since the last API stop / successful kick (the implementation's
                             -- own counter is not trusted for the budget rule; an auto-stop tick resets only the latter,
                             -- which can make the implementation more permissive than this count, never less)
@@ -136,11 +137,14 @@ def monStep (m : Mon) (st : Step) : Mon :=
   -- (d) auto stop on tick: exactly when the last consumer has been gone for the window
   let m :=
     if name == "T" && p.attached then
-      let gone := c.auto ≥ 0 && !p.hasOut && !c.hasOut
+      -- "the last consumer has been gone": by the implementation's own view AND by the monitor's count of joins and leaves
+      let gone := c.auto ≥ 0 && !p.hasOut && !c.hasOut && m.consumers == 0
       let m := m.req (!(gone && (c.auto == 0 || st.t0 - m.lastHi ≥ c.auto)) || !c.attached) "no-auto-stop-after-window"
       m.req (c.attached || (gone && (c.auto == 0 || st.t1 - m.lastLo ≥ c.auto))) "auto-stop-before-window"
     else m
-  let m := if sampling && c.hasOut then { m with lastLo := max m.lastLo st.t0, lastHi := max m.lastHi st.t1 } else m
+  let m := if name == "J" then { m with consumers := m.consumers + 1 }
+           else if name == "L" then { m with consumers := m.consumers - 1 } else m
+  let m := if sampling && (c.hasOut || m.consumers > 0) then { m with lastLo := max m.lastLo st.t0, lastHi := max m.lastHi st.t1 } else m
   -- (e) publisher bookkeeping of the monitor
   let m :=
     if name == "P" && st.res == "ok" then
